@@ -69,7 +69,7 @@ class SigGen:
             base = rng.randrange(k) if k and rng.random() < 0.6 else None
             nsig = rng.randint(2, 4) if self.many_attrs else rng.randint(1, 3)
             sigs = {a: rng.randrange(nev) for a in rng.sample(ATTRS, nsig)}
-            classes.append({"name": f"O{k}", "base": base, "signals": sigs})
+            classes.append({"name": f"O{k}", "base": base, "signals": sigs, "falsy": rng.random() < 0.3})
         instances = [rng.randrange(ncls) for _ in range(rng.randint(1, 4))]
         copies = {}
         for i in range(1, len(instances)):
